@@ -3,6 +3,7 @@ import math
 import signal
 
 import numpy as np
+from hypothesis import strategies as st
 
 from .. import e2e
 from .. import spec as S
@@ -47,7 +48,9 @@ def budget(tier):
 
 
 def strategy(tier):
-    return S.problems(PROFILE)
+    # one case in eight comes from the family in which the objective and a constraint are undefined on
+    # complementary half-spaces (every evaluation has exactly one undefined value)
+    return st.integers(0, 7).flatmap(lambda i: S.nan_split_problems(PROFILE) if i == 0 else S.problems(PROFILE))
 
 
 class _Timeout(Exception):
